@@ -1,6 +1,7 @@
 import CpModel.Opp.Ldap
 import CpSpec.Wire
 import CpSpec.Opp
+import CpProofs.DnsSpec
 /-
   C09 (LDAP framing) — `_get_message_size` returns exactly the number of octets of the outer BER
   TLV, for EVERY length form X.690 §8.1.3 allows: the short form, and the long form with any number
@@ -63,6 +64,19 @@ theorem size_is_tlv_length_long (tag : UInt8) (ls content tail : Bytes) (hk : ls
   simp only [List.length_cons, List.length_append]
   congr 1
   omega
+
+/-- the same without a side condition on the length octets: the content length `content.length` written
+as X.690 writes it, big-endian on `k` octets — the minimal `k` (DER, what asn1crypto composes) or any
+larger one (BER, zero-padded) -/
+theorem size_is_tlv_length_ber (tag : UInt8) (k : Nat) (content tail : Bytes) (hk : k < 128)
+    (hfit : content.length < 256 ^ k) :
+    ldapMessageSize (tag :: UInt8.ofNat (0x80 + k) :: (Spec.toBytesBE k content.length ++ (content ++ tail))) =
+      .ok ((tag :: UInt8.ofNat (0x80 + k) :: (Spec.toBytesBE k content.length ++ content)).length) := by
+  have hl : (Spec.toBytesBE k content.length).length = k := Spec.Dns.toBE_length k content.length
+  have := size_is_tlv_length_long tag (Spec.toBytesBE k content.length) content tail (by rw [hl]; exact hk)
+    (Spec.Dns.fromBE_toBE hfit).symm
+  rw [hl] at this
+  exact this
 
 /-- the two RFC 4511 encodings of `CpSpec/Opp.lean` (what the library composes) are consumed completely,
 whatever follows them and whatever the result code -/
